@@ -323,6 +323,10 @@ RT_SWEEP = [("localhost-name", "localhost"), ("localhost-name", "LocalHost."), (
 POLICIES = ["every-tick", "every-tick", "alternate", "on-changed", "none"]
 
 
+class _SkipStep(Exception):
+    pass
+
+
 def free_port() -> int:
     with socket.socket() as s:
         s.bind(("127.0.0.1", 0))
@@ -489,6 +493,15 @@ async def run_history(ctx, r):
             blocker = socket.socket(socket.AF_INET, socket.SOCK_DGRAM)
             try:
                 blocker.bind(("127.0.0.1", port))
+            except OSError:
+                # free_port() only knows the port is free for TCP; another worker / process may own the UDP port of that
+                # number. Nothing of mitmproxy is involved yet: skip this step (harness condition, not a verdict).
+                blocker.close()
+                blocker = None
+                ctx.count("runtime.udp_blocker_port_busy")
+            try:
+                if blocker is None:
+                    raise _SkipStep()
                 spec = f"{tmpl}@127.0.0.1:{port}"
                 cands.append((spec, mode_specs.ProxyMode.parse(spec), "127.0.0.1", port))
                 idx = len(cands) - 1
@@ -501,8 +514,11 @@ async def run_history(ctx, r):
                     log.append({"modes": [cands[i][0] for i in sorted(target)], "policy": "udp-port-blocked-by-harness", "update_ok": ok})
                     ctx.count("runtime.udp_blocked_start_steps")
                     sweep_after_step(steps, ok)
+            except _SkipStep:
+                pass
             finally:
-                blocker.close()
+                if blocker is not None:
+                    blocker.close()
         await ps.servers.update([])
     ctx.count("runtime.histories")
     ctx.count("runtime.concurrent_vets", stats["concurrent"])
